@@ -57,7 +57,7 @@ func runC12C(e *Env, r *core.Run) {
 	}
 	kp := m.ExpandUniform().KeyPair()
 	skm := model.SrExpandUniform(mini)
-	pkb := mustMarshal(kp.PublicKey().MarshalBinary())
+	pkb := marshalOwned(kp.PublicKey().MarshalBinary())
 	ctx := g.Bytes(t.W(16))
 	sc := sr25519.NewSigningContext(ctx)
 	pk := kp.PublicKey()
@@ -114,7 +114,7 @@ func runC12C(e *Env, r *core.Run) {
 					sig, err := kp.Sign(NewFixedReader(q.ent), st)
 					ok := err == nil && pk.Verify(st, sig)
 					if err == nil {
-						sigs[i][j] = mustMarshal(sig.MarshalBinary())
+						sigs[i][j] = marshalOwned(sig.MarshalBinary())
 					}
 					rt.ExitOp()
 					l.Ev("req %d sign+verify -> %s %v", j, core.H(sigs[i][j]), ok)
@@ -168,7 +168,7 @@ func runC12C(e *Env, r *core.Run) {
 		}
 	}
 	// the shared objects must be what they were
-	if !bytes.Equal(mustMarshal(kp.MarshalBinary()), append(skm.Bytes(), pkb...)) {
+	if !bytes.Equal(marshalOwned(kp.MarshalBinary()), append(skm.Bytes(), pkb...)) {
 		r.Fail("caller-object", "shared-keypair-changed", "the shared key pair's marshalled form changed during concurrent signing")
 	}
 }
